@@ -420,3 +420,23 @@ PROPS['C17'] = {
 MANIFEST_TEXT['C17'] = {'claim': 'generated crash / tool-failure histories against the built profiler: SIGKILL after n bytes for n in every interesting class (flush boundaries, line and site boundaries), tool exit codes, missing tool, changed binary; every successful later run must equal a cold-cache run',
                         'note': 'crash points are enumerated by class of prefix length; the cache content is whatever the implementation left behind, the harness never writes it',
                         'technique': 'property-based testing (rapid) of fault histories; crash/fault injection at process boundaries; differential against a cold-cache run'}
+
+PROPS['C18'] = {
+    'level': 'exploration',
+    'rule': ('cases = (binary amd64|386, listing seed with 0..300 distinct discovered syscalls and duplicated sites, -b flag values, -allow flag values, output format config|code|default): flag values hold 1..4 names each, '
+             'separated by space/comma/semicolon, flags repeated; names are found syscalls, other table names, names of the other architecture only, unknown names; the two sets are disjoint; the built profiler is run with a '
+             'fake `go` tool that prints the generated listing; oracle: the emitted list (YAML through the configuration loader, Go source through go/parser) == sorted duplicate-free (found - blacklist) + (allow ∩ table(arch)); '
+             'closure: the YAML profile loaded as the sandbox would and compiled for the binary\'s architecture is executed on every table number, its neighbours and unlisted numbers: exactly the expected names are allowed, '
+             'all others get ERRNO|EPERM; non-trivial: the blacklist removes a found syscall and the allow-list adds a new one, or sites are duplicated; distinct by hash of the case JSON'),
+    'assumptions': ['the discovered set is known exactly because the listing only contains canonical sites of the site model',
+                    'an empty allow-list profile need not load through the configuration path (no claim)'],
+    'required_classes': {'all': ['format:config', 'format:code', 'format:default', 'binary:amd64', 'binary:386', 'empty-result', 'names>255', 'closure-checked',
+                                 'blacklist-removes-and-allow-adds', 'duplicate-sites']},
+    'units': [
+        {'test': 'TestC18Profiles', 'checks': {'quick': 160, 'thorough': 6000}, 'shards': {'quick': 8, 'thorough': 16}, 'helpers': _PROFILER,
+         'timeout': {'quick': 500, 'thorough': 3300}},
+    ],
+}
+MANIFEST_TEXT['C18'] = {'claim': 'generated discovered-syscall multisets x blacklist x allow-list flag spellings x formats against the built profiler; set-algebra oracle on the emitted list and closure check (load through the configuration path, compile, interpret every table number)',
+                        'note': 'black-box test of the built command with a fake disassembler; the interpreter and the configuration loader are the trusted base of the closure check',
+                        'technique': 'property-based testing (rapid) with a set-algebra model; round trip through the configuration path and the compiler'}
